@@ -99,6 +99,7 @@ type RunInfo struct {
 	Interleave uint64 // hash of the switch sequence (0 = none)
 	Events     int64
 	Hash       uint64 // full event/observation hash for determinism re-checks
+	Sched      []simrt.Switch
 }
 
 // PropImpl is one property's world generator and executor.
